@@ -8,7 +8,29 @@ import (
 )
 
 // abbreviations used for ReceiveMessage (applied in order)
+// abRM abbreviates calls whose ARGUMENTS are judged by separate obligations (parse input,
+// verifier arguments, mint request, mint event) with a balanced wildcard "§", so that a
+// property's guards do not depend on values that are another property's business.
 var abRM = [][2]string{
+	{"MP", "(*types.Message).Parse(§)"},
+	{"M", "MP#0"},
+	{"BP", "(*types.BurnMessage).Parse(§)"},
+	{"B", "BP#0"},
+	{"N", "types.Nonce{SourceDomain:M.SourceDomain,Nonce:M.Nonce}"},
+	{"PAIR", "k.GetTokenPair(ctx,M.SourceDomain,B.BurnToken)"},
+	{"TM", "k.GetRemoteTokenMessenger(ctx,M.SourceDomain)"},
+	{"PFX", "(*sdk.Config).GetBech32AccountAddrPrefix(sdk.GetConfig())"},
+	{"VAS", "keeper.VerifyAttestationSignatures(§)"},
+	{"ENC", "bech32.ConvertAndEncode(PFX,M.DestinationCaller[12:])"},
+	{"RCPT", "sdk.Bech32ifyAddressBytes(§)"},
+	{"MODADDR", "(sdk.AccAddress).String(types.ModuleAddress)"},
+	{"DENOM", "strings.ToLower(PAIR#0.LocalToken)"},
+	{"MINT", "k.fiattokenfactory.Mint(§)"},
+	{"EMITMINT", "(sdk.Context).EventManager(ctx).EmitTypedEvent(&types.MintAndWithdraw{§})"},
+}
+
+// abRMx: the exact provenance terms (used by C04, whose subject is exactly these values)
+var abRMx = [][2]string{
 	{"MP", "(*types.Message).Parse(&types.Message{},p2.Message)"},
 	{"M", "MP#0"},
 	{"BP", "(*types.BurnMessage).Parse(&types.BurnMessage{},M.MessageBody)"},
@@ -17,15 +39,9 @@ var abRM = [][2]string{
 	{"PAIR", "k.GetTokenPair(ctx,M.SourceDomain,B.BurnToken)"},
 	{"TM", "k.GetRemoteTokenMessenger(ctx,M.SourceDomain)"},
 	{"PFX", "(*sdk.Config).GetBech32AccountAddrPrefix(sdk.GetConfig())"},
-	{"VAS", "keeper.VerifyAttestationSignatures(p2.Message,p2.Attestation,k.GetAllAttesters(ctx),k.GetSignatureThreshold(ctx)#0.Amount)"},
-	{"ENC", "bech32.ConvertAndEncode(PFX,M.DestinationCaller[12:])"},
 	{"RCPT", "sdk.Bech32ifyAddressBytes(PFX,B.MintRecipient[12:])"},
 	{"MODADDR", "(sdk.AccAddress).String(types.ModuleAddress)"},
 	{"DENOM", "strings.ToLower(PAIR#0.LocalToken)"},
-	{"MINTREQ", "&ftf.MsgMint{From:MODADDR,Address:RCPT#0,Amount:sdk.Coin{Denom:DENOM,Amount:B.Amount}}"},
-	{"MINT", "k.fiattokenfactory.Mint(ctx,MINTREQ)"},
-	{"MINTEV", "&types.MintAndWithdraw{MintRecipient:B.MintRecipient,Amount:B.Amount,MintToken:DENOM}"},
-	{"EMITMINT", "(sdk.Context).EventManager(ctx).EmitTypedEvent(MINTEV)"},
 }
 
 // lenNorm applies E6 length facts: fields produced by the Parse functions have
@@ -37,13 +53,15 @@ func lenNorm(s string) string {
 	return s
 }
 
-func rmCtx(p *Prog, r *Report) *FC {
+func rmCtx(p *Prog, r *Report) *FC { return rmCtxWith(p, r, abRM) }
+
+func rmCtxWith(p *Prog, r *Report, ab [][2]string) *FC {
 	c := p.fc(r, handlerFn(p, "ReceiveMessage"), "ReceiveMessage", nil)
 	if c == nil {
 		return nil
 	}
 	// rebuild with length normalisation folded into the abbreviation pass
-	c.ab = abRM
+	c.ab = ab
 	c.ifs = nil
 	for _, ii := range p.ifs(c.fn) {
 		ii.atom.Key = c.sh(lenNorm(ii.atom.Key))
@@ -124,15 +142,26 @@ func zero32Global(p *Prog, r *Report) {
 
 // moduleBranchStart: the successor block taken when the message is addressed to the module.
 func moduleBranchStart(c *FC) *ssa.BasicBlock {
+	mints := c.calls("k.fiattokenfactory.Mint")
+	var best *ssa.BasicBlock
 	for _, ii := range c.ifs {
-		if ii.atom.Key == "bytes.Equal(M.Recipient,types.PaddedModuleAddress)" {
-			if ii.atom.Pol {
-				return ii.in.Block().Succs[0]
+		if ii.atom.Key != "bytes.Equal(M.Recipient,types.PaddedModuleAddress)" {
+			continue
+		}
+		succ := ii.in.Block().Succs[0]
+		if !ii.atom.Pol {
+			succ = ii.in.Block().Succs[1]
+		}
+		// the recipient test that opens the mint branch: its module-side successor dominates the mint
+		if len(mints) == 1 && (succ == mints[0].Block() || succ.Dominates(mints[0].Block())) {
+			if best == nil || best.Dominates(succ) {
+				best = succ
 			}
-			return ii.in.Block().Succs[1]
+		} else if best == nil && len(mints) != 1 {
+			best = succ
 		}
 	}
-	return nil
+	return best
 }
 
 // ---------------------------------------------------------------------------
@@ -250,6 +279,9 @@ func runC03(p *Prog, r *Report, tier string) {
 	}
 	if mp := c.oneCall("T-eq", "(*types.Message).Parse"); mp != nil {
 		c.teq("T-eq", "parsed-bytes", c.args(mp)[1], "p2.Message", p.instrPos(mp))
+	}
+	if bp := c.oneCall("T-eq", "(*types.BurnMessage).Parse"); bp != nil {
+		c.teq("T-eq", "parsed-body", c.args(bp)[1], "M.MessageBody", p.instrPos(bp))
 	}
 }
 
@@ -375,7 +407,7 @@ func runC04(p *Prog, r *Report, tier string) {
 	r.Assumptions = []string{"go/ssa faithfully represents the module code", "fiat-token-factory Mint mints exactly the requested coin to the requested address", "typed-event emission encodes the struct it is given"}
 	r.Trusted = r.Assumptions
 
-	c := rmCtx(p, r)
+	c := rmCtxWith(p, r, abRMx)
 	if c == nil {
 		return
 	}
@@ -410,7 +442,6 @@ func runC04(p *Prog, r *Report, tier string) {
 		req := c.argTerms(mint)[1]
 		// compare field by field (abbreviations for sub-terms, not for the request itself)
 		sub := *c
-		sub.ab = abRM[:13]
 		sub.checkLitN("T-eq", "MsgMint", req, "ftf.MsgMint", map[string]string{
 			"From":    "MODADDR",
 			"Address": "RCPT#0",
@@ -419,7 +450,6 @@ func runC04(p *Prog, r *Report, tier string) {
 	}
 	// events
 	sub := *c
-	sub.ab = abRM[:13]
 	nEv := 0
 	for _, e := range p.effects(c.fn).direct {
 		if e.Kind != "EVENT" {
